@@ -85,3 +85,9 @@ theorem C03_root_eq_markdown_verify (t : T) (ht : DistinctT t) (s : Spelling) (f
   simp [verifyMd, herr, hroots, mergeRoot_distinct t ht]
 
 end Gtree
+
+namespace Gtree
+/-- non-vacuity: a three-level tree with distinct sibling names -/
+example : DistinctT (.mk [0x72] [.mk [0x61] [.mk [0x63] []], .mk [0x62] []]) := by
+  simp [DistinctT, DistinctL, T.name]
+end Gtree
